@@ -797,6 +797,53 @@ let () =
       String.concat "|" (go None rest [])
     | _ -> "badargs")
 
+(* fllife <hexdata|-> <buffered 0/1> <fills|-> <reads|-> op... ;
+   op = r<n> | c | R/<hexdata|->/<buffered>/<fills|->/<reads|-> :
+   lifecycle histories of flate.Reader (Flate/ImplLife.v fl_life): NewReader over the first
+   scripted source, then Read / Close / Reset calls; one observation per call, cut at the
+   first crash as the harness does *)
+let () =
+  let fmt_bytes (l : n list) : string =
+    let len = List.length l in
+    if len = 0 then "-"
+    else if len <= 48 then hex_of_bytes l
+    else begin
+      let h = ref 0 in
+      List.iter (fun x -> h := (!h * 1000003 + int_of_n x + 1) land (1 lsl 40 - 1)) l;
+      Printf.sprintf "H%d.%d" len !h end in
+  (* unary naturals are immutable: the big buffer sizes are built once *)
+  let memo : (int, nat) Hashtbl.t = Hashtbl.create 64 in
+  let nat_of_int i = match Hashtbl.find_opt memo i with
+    | Some v -> v
+    | None -> let v = nat_of_int i in Hashtbl.replace memo i v; v in
+  let ints s = if s = "-" then [] else List.map (fun x -> nat_of_int (int_of_string x)) (String.split_on_char ',' s) in
+  let crashed (o : lobs) = match o.lo_err with Some EPanic | Some EFuel -> true | _ -> false in
+  let fmt_obs (o : lobs) : string =
+    if crashed o then (match o.lo_err with Some EFuel -> "Fuel" | _ -> "Panic") else
+    let tail = Printf.sprintf "%s:%s:%s:%d" (oerr_name o.lo_err)
+                 (z_to_string o.lo_inOff) (z_to_string o.lo_outOff) (int_of_nat o.lo_srcPos) in
+    match o.lo_kind with
+    | LkRead -> Printf.sprintf "r:%s:%s" (fmt_bytes o.lo_bytes) tail
+    | LkClose -> "c:" ^ tail
+    | LkReset -> "R:" ^ tail in
+  register "fllife" (fun args -> match args with
+    | hex :: bf :: fills :: reads :: ops ->
+      let op_of s =
+        if s = "c" then FClose
+        else if s.[0] = 'r' then FRead (nat_of_int (int_of_string (String.sub s 1 (String.length s - 1))))
+        else match String.split_on_char '/' s with
+          | ["R"; h; b; f; r] -> FReset (bytes_of_hex h, b = "1", ints f, ints r)
+          | _ -> failwith "fllife op" in
+      (match fl_life (bytes_of_hex hex) (bf = "1") (ints fills) (ints reads) (List.map op_of ops) with
+       | Ok obs ->
+         let rec cut l = match l with
+           | [] -> []
+           | o :: r -> if crashed o then [fmt_obs o] else fmt_obs o :: cut r in
+         let l = cut obs in
+         if l = [] then "-" else String.concat "," l
+       | _ -> "InitPanic")
+    | _ -> "badargs")
+
 (* ---- scripted sinks shared by wbzw / wmetaw ------------------------------------------- *)
 let sink_beh s =
   if s = "a" then SAccept
